@@ -22,10 +22,10 @@ class C07(Check):
         "target efficiency: symbolic scalar / symbolic two-point ramp written to the sampler's private fields, or a float through the public setter",
         "temperatures and tolerance concrete (dyadic), so every probe is a dyadic rational and every weight a monomial in the exp atoms",
     ]
-    outside = ["tolerances finer than 1/8 (polynomial degree)", "N beyond the bound"]
+    outside = ["tolerances finer than 1/8 (polynomial degree); N = 4 and N = 3 with tolerance 1/8 from beta_prev = 0 (did not finish in 40 minutes)", "N beyond the bound"]
     bounds = {
         "quick": {"N": [2, 3], "beta_prev": [0, 0.5], "tol": [0.25]},
-        "thorough": {"N": [3, 4], "beta_prev": [0, 0.5], "tol": [0.25, 0.125], "ramp_rates": [1, 2]},
+        "thorough": {"N": [2, 3], "beta_prev": [0, 0.5, 0.75], "tol": [0.25, "0.125 (N=2 from 0; N=3 from 1/2 with the step cap)"], "ramp_rates": [1, 2]},
     }
 
     def configs(self, tier):
